@@ -812,6 +812,9 @@ function select_aggregated(key, transparent_values) {
         }
         query_context.aggregation_stage = 2;
     } else {
+        if (transparent_values.length != query_context.writer.aggregators.length) {
+            throw new RbqlRuntimeError(`Invalid aggregate expression: the number of output columns is not the same for all records: ${query_context.writer.aggregators.length} and ${transparent_values.length}`);
+        }
         for (var i = 0; i < transparent_values.length; i++) {
             var trans_value = transparent_values[i];
             query_context.writer.aggregators[i].increment(key, trans_value);
